@@ -62,8 +62,9 @@ def nc_specs():
         for ndim in (0, 1, 2):
             for nan in ((False, True) if dtype in ("f4", "f8") else (False,)):
                 for place in ("root", "group", "nested", "owndim",
-                              "samename"):
-                    if place in ("owndim", "samename") and ndim == 0:
+                              "samename", "groupcoords"):
+                    if place in ("owndim", "samename", "groupcoords") \
+                            and ndim == 0:
                         continue
                     for order in orders(place):
                         out.append(dict(dtype=dtype, ndim=ndim, nan=nan,
@@ -172,20 +173,28 @@ def nc_dataset(spec):
     v = packed_values(spec["dtype"], spec["nan"]) if spec["packed"] else \
         values(spec["dtype"], spec["nan"])
     place = spec["place"]
-    name = {"root": "v", "nested": "a/b/v"}.get(place, "g/v")
+    name = {"root": "v", "nested": "a/b/v",
+            "groupcoords": "grp/v"}.get(place, "g/v")
     dims = [(), ("n",), ("m", "n")][spec["ndim"]]
     if place == "owndim":
         dims = [None, ("g/k",), ("g/j", "g/k")][spec["ndim"]]
     elif place == "samename":
         dims = [None, ("g/n",), ("g/m", "g/n")][spec["ndim"]]
+    elif place == "groupcoords":
+        dims = [None, ("grp/x",), ("grp/y", "grp/x")][spec["ndim"]]
     variables = [(name, (dims, shaped(v, spec["ndim"], spec["nan"],
                                       longer=place == "samename"))),
                  ("ref", ("n", np.array([0.0, 1.0, 2.0]))),
                  ("ref2", ("m", np.array([0.0, 1.0])))]
     if spec["order"] == "ref-first":
         variables = variables[1:] + variables[:1]
-    ds = xr.Dataset(dict(variables),
-                    coords={"n": ("n", np.array([10, 20, 30], "i4"))})
+    coords = {"n": ("n", np.array([10, 20, 30], "i4"))}
+    if place == "groupcoords":
+        # dimension coordinate and an auxiliary coordinate that live in a
+        # group with a name of several characters
+        coords["grp/x"] = ("grp/x", np.array([5, 6, 7], "i4"))
+        coords["grp/lat"] = ("grp/x", np.array([0.5, 1.5, 2.5]))
+    ds = xr.Dataset(dict(variables), coords=coords)
     if spec["packed"] == "encoding":
         ds[name].encoding = dict(PACKING)
     return ds, name
